@@ -1459,9 +1459,14 @@ class UserAttribute(Packet):
     def parse(self, packet):
         super(UserAttribute, self).parse(packet)
 
+        # the packet body exactly as received; each subpackets.parse below adds one subpacket, which drops it
+        raw = bytearray(packet[:self.header.length])
+
         plen = len(packet)
         while self.header.length > (plen - len(packet)):
             self.subpackets.parse(packet)
+
+        self.subpackets._unhashed_raw = raw
 
     def update_hlen(self):
         self.subpackets.update_hlen()
